@@ -84,6 +84,17 @@ theorem C12_linear (monomers : List (String × Int)) :
 example : fromMonomerSeqLinear [("PEO", 2), ("X", 0), ("OH", 1)] =
     ⟨[⟨0, 1, "PEO"⟩, ⟨1, 2, "PEO"⟩, ⟨2, 3, "OH"⟩], [⟨0, 1, []⟩, ⟨1, 2, []⟩], 3⟩ := by decide
 
+/-- `gen_params -seq …` up to the MetaMolecule: every item must read `name:count`, then the linear graph -/
+theorem C12_seq_option (items : List Text) :
+    fromSeqOption items = (splitSeqString items).map fun ms => specLinear (expand ms) := by
+  unfold fromSeqOption
+  cases splitSeqString items with
+  | none => rfl
+  | some ms => simp [C12_linear]
+
+example : fromSeqOption ["PEO:2".toList, "OH:1".toList] = some (specLinear ["PEO", "PEO", "OH"]) ∧
+    fromSeqOption ["PEO".toList] = none := by decide
+
 /-- The graph `_monomers_to_linear_nx_graph` builds, seen through `MetaMolecule`, is the linear graph of
 the monomers for EVERY length — in particular one monomer gives one residue (the defect fixed by commit
 4cf656d gave an empty graph there; the correspondence turns red on its reverse patch). -/
@@ -93,18 +104,19 @@ theorem C12_linear_parsers (names : List String) : toMeta (linearGraph names) = 
 example : toMeta (linearGraph ["GLY"]) = ⟨[⟨0, 1, "GLY"⟩], [], 1⟩ := by decide
 
 /-- `.txt`: for every list of residue names (non-empty, free of white space) and EVERY breaking into
-non-empty lines (names separated by single spaces, no blank lines), reading the file gives the linear
-graph of the names in file order. -/
-theorem C12_linear_txt (T : Tabs) (chunks : List (List String)) (hc : ∀ ch ∈ chunks, ch ≠ [])
+non-empty lines (names separated by single spaces, no blank lines; the last line with or without a final
+line break), reading the file gives the linear graph of the names in file order. -/
+theorem C12_linear_txt (T : Tabs) (final : Bool) (chunks : List (List String)) (hc : ∀ ch ∈ chunks, ch ≠ [])
     (ht : ∀ ch ∈ chunks, ∀ s ∈ ch, GoodToken s) :
-    fromSequenceFile T "txt".toList (renderTxt chunks) = some (specLinear chunks.flatten) := by
+    fromSequenceFile T "txt".toList (renderTxt final chunks) = some (specLinear chunks.flatten) := by
   have h : String.ofList (lowerAscii "txt".toList) = "txt" := by decide
   simp only [fromSequenceFile, h, if_true]
-  rw [Proofs.Seq.parseTxt_render chunks hc ht, Proofs.Seq.toMeta_linearGraph]
+  rw [Proofs.Seq.parseTxt_render final chunks hc ht, Proofs.Seq.toMeta_linearGraph]
 
-example : renderTxt [["PEO", "PEO"], ["OH"]] = "PEO PEO\nOH\n".toList ∧
+example : renderTxt true [["PEO", "PEO"], ["OH"]] = "PEO PEO\nOH\n".toList ∧
+    renderTxt false [["PEO", "PEO"], ["OH"]] = "PEO PEO\nOH".toList ∧
     (∀ ch ∈ [["PEO", "PEO"], ["OH"]], ∀ s ∈ ch, GoodToken s) := by
-  refine ⟨by decide, ?_⟩
+  refine ⟨by decide, by decide, ?_⟩
   intro ch hch s hs
   simp only [List.mem_cons, List.not_mem_nil, or_false] at hch
   rcases hch with rfl | rfl <;> simp only [List.mem_cons, List.not_mem_nil, or_false] at hs <;>
@@ -148,18 +160,21 @@ example : specNames Tabs.repo .dna false "ACGT".toList = some ["DA5", "DC", "DG"
     specNames Tabs.repo .dna false "AXG".toList = none := by decide
 
 /-- `.fasta`: header line naming one alphabet, then the letters in EVERY breaking into lines (no white
-space, no `>`): the residue graph is the specified one — translated, terminally named, linear. -/
-theorem C12_fasta (T : Tabs) (a : Alphabet) (header : Text) (chunks : List Text)
+space, no `>`; the last line with or without a final line break): the residue graph is the specified
+one — translated, terminally named, linear. -/
+theorem C12_fasta (T : Tabs) (a : Alphabet) (final : Bool) (header : Text) (chunks : List Text)
     (hh : '\n' ∉ header) (hid : identify [header] = some (flagsOf a))
-    (hc : ∀ ch ∈ chunks, ∀ c ∈ ch, isSpace c = false ∧ c ≠ '>') :
-    fromSequenceFile T "fasta".toList (renderFasta header chunks) = specSeqFile T a false chunks.flatten := by
+    (hc : ∀ ch ∈ chunks, ∀ c ∈ ch, isSpace c = false ∧ c ≠ '>')
+    (hf : final = false → header ≠ [] ∧ ∀ ch ∈ chunks, ch ≠ []) :
+    fromSequenceFile T "fasta".toList (renderFasta final header chunks) = specSeqFile T a false chunks.flatten := by
   have h1 : String.ofList (lowerAscii "fasta".toList) = "fasta" := by decide
   have h2 : ¬ ("fasta" = "txt") := by decide
   simp only [fromSequenceFile, h1, h2, if_true, if_false]
-  exact Proofs.Seq.parseFasta_render T a header chunks hh hid hc
+  exact Proofs.Seq.parseFasta_render T a final header chunks hh hid hc hf
 
 example : identify [">my DNA strand".toList] = some (flagsOf .dna) ∧
-    renderFasta ">my DNA strand".toList ["AC".toList, "G".toList] = ">my DNA strand\nAC\nG\n".toList ∧
+    renderFasta true ">my DNA strand".toList ["AC".toList, "G".toList] = ">my DNA strand\nAC\nG\n".toList ∧
+    renderFasta false ">my DNA strand".toList ["AC".toList, "G".toList] = ">my DNA strand\nAC\nG".toList ∧
     specSeqFile Tabs.repo .dna false "ACG".toList =
       some ⟨[⟨0, 1, "DA5"⟩, ⟨1, 2, "DC"⟩, ⟨2, 3, "DG3"⟩], [⟨0, 1, []⟩, ⟨1, 2, []⟩], 3⟩ := by decide
 
@@ -197,6 +212,33 @@ example : ((parsePlain Tabs.repo (flagsOf .dna) ["ACG".toList]).bind (closeCircl
     some ⟨[⟨0, 1, "DA"⟩, ⟨1, 2, "DC"⟩, ⟨2, 3, "DG"⟩], [⟨0, 1, []⟩, ⟨1, 2, []⟩, ⟨0, 2, [("linktype", "circle")]⟩], 3⟩ ∧
     specSeqFile Tabs.repo .aa true "GAV".toList =
       some ⟨[⟨0, 1, "GLY"⟩, ⟨1, 2, "ALA"⟩, ⟨2, 3, "VAL"⟩], [⟨0, 1, []⟩, ⟨1, 2, []⟩, ⟨0, 2, [("linktype", "circle")]⟩], 3⟩ := by
+  decide
+
+/-- `.ig`: comment lines (one of them naming the alphabet), a title line, the letters in EVERY breaking
+into non-empty lines, the terminator `1` or `2` after the last letter (on the last sequence line or on
+a line of its own), with or without a final line break: terminator `1` gives the linear graph of the
+specification, terminator `2` the circular one. -/
+theorem C12_ig (T : Tabs) (a : Alphabet) (final : Bool) (comments : List Text) (title : Text)
+    (chunks : List Text) (last : Text) (ter tch : Char)
+    (hcm : ∀ c ∈ comments, '\n' ∉ c ∧ (splitComments c).1 = [])
+    (htitle : '\n' ∉ title ∧ (splitComments title).1.getLast? = some tch ∧ tch ≠ '1' ∧ tch ≠ '2')
+    (hid : identify ((comments ++ [title]).map fun l => (splitComments l).2) = some (flagsOf a))
+    (hc : ∀ ch ∈ chunks, ch ≠ [] ∧ ∀ c ∈ ch, SeqChar c) (hl : ∀ c ∈ last, SeqChar c)
+    (hter : ter = '1' ∨ ter = '2') :
+    fromSequenceFile T "ig".toList (renderIg final comments title chunks last ter)
+      = specSeqFile T a (ter == '2') (chunks.flatten ++ last) := by
+  have h1 : String.ofList (lowerAscii "ig".toList) = "ig" := by decide
+  have h2 : ¬ ("ig" = "txt") := by decide
+  have h3 : ¬ ("ig" = "fasta") := by decide
+  simp only [fromSequenceFile, h1, h2, h3, if_true, if_false]
+  exact Proofs.Seq.parseIg_render T a final comments title chunks last ter tch hcm htitle hid hc hl hter
+
+example : renderIg true ["; a DNA ring".toList] "myseq".toList ["AC".toList] "G".toList '2'
+      = "; a DNA ring\nmyseq\nAC\nG2\n".toList ∧
+    (splitComments "; a DNA ring".toList).1 = [] ∧ (splitComments "myseq".toList).1.getLast? = some 'q' ∧
+    identify ((["; a DNA ring".toList] ++ ["myseq".toList]).map fun l => (splitComments l).2) = some (flagsOf .dna) ∧
+    fromSequenceFile Tabs.repo "ig".toList "; a DNA ring\nmyseq\nAC\nG2\n".toList =
+      some ⟨[⟨0, 1, "DA"⟩, ⟨1, 2, "DC"⟩, ⟨2, 3, "DG"⟩], [⟨0, 1, []⟩, ⟨1, 2, []⟩, ⟨0, 2, [("linktype", "circle")]⟩], 3⟩ := by
   decide
 
 /-! ### macro trees -/
@@ -246,13 +288,34 @@ theorem C12_connect (blocks : List Block) (g : SGraph) (hg : g.nodes = (specUnio
 /-- EVERY list of connect records: all are applied in order, or the input is refused -/
 theorem C12_connects (blocks : List Block) (cs : List (Nat × Nat × List (Nat × Nat))) :
     cs.foldlM addConnect (unionBlocks blocks)
-      = ((Proofs.Seq.flatConnects cs).mapM fun q => specConnectEdge blocks q.1 q.2.1 q.2.2.1 q.2.2.2).map
-          (Proofs.Seq.addEdges (specUnion blocks)) := by
+      = ((flatConnects cs).mapM fun q => specConnectEdge blocks q.1 q.2.1 q.2.2.1 q.2.2.2).map
+          (addEdges (specUnion blocks)) := by
   rw [Proofs.Seq.unionBlocks_spec]
   exact Proofs.Seq.connects_fold blocks cs (specUnion blocks) rfl
 
 example : specConnectEdge [⟨["A", "A"], [(0, 1)]⟩, ⟨["B"], []⟩, ⟨["C", "C"], [(0, 1)]⟩] 0 2 1 1 = some (1, 4) ∧
     specConnectEdge [⟨["A", "A"], [(0, 1)]⟩, ⟨["B"], []⟩] 0 1 0 1 = none := by decide
+
+/-- The whole of `generate_seq_graph` + `_apply_termini_modifications` + `_tag_nodes` on parsed records, for
+EVERY list of blocks, connect records, terminal renamings and labels (each label with a certain value,
+naming a non-empty block): blocks laid out in order; every connect item adds its edge or the input is
+refused; a renaming `s:name` renames exactly the residues of block `s` that have degree one in the FINAL
+graph (connect edges included), the last renaming winning; a label `s:attr:value` is set on exactly the
+residues of block `s`. -/
+theorem C12_genseq (blocks : List Block) (cs : List (Nat × Nat × List (Nat × Nat))) (mods : List (Nat × String))
+    (ptags : List (Nat × String × List (String × Bool))) (stags : List (Nat × String × String))
+    (hp : ptags.mapM (fun t => (pickCertain t.2.2).map fun v => (t.1, t.2.1, v)) = some stags)
+    (hv : ∀ t ∈ stags, ∃ b, blocks[t.1]? = some b ∧ b.names ≠ []) :
+    genGraph blocks cs mods ptags = specGenSeq blocks (flatConnects cs) mods stags :=
+  Proofs.Seq.genGraph_spec blocks cs mods ptags stags hp hv
+
+example : genGraph [⟨["PS", "PS"], [(0, 1)]⟩, ⟨["PEO", "PEO"], [(0, 1)]⟩] [(0, 1, [(1, 0)])] [(1, "OH")]
+      [(0, "chiral", [("R", true), ("S", false)])]
+    = some ⟨[⟨0, "PS", none, some 0, [("chiral", "R")]⟩, ⟨1, "PS", none, some 0, [("chiral", "R")]⟩,
+             ⟨2, "PEO", none, some 1, []⟩, ⟨3, "OH", none, some 1, []⟩],
+            [⟨0, 1, []⟩, ⟨2, 3, []⟩, ⟨1, 2, []⟩]⟩ ∧
+    [(0, "chiral", [("R", true), ("S", false)])].mapM (fun t => (pickCertain t.2.2).map fun v => (t.1, t.2.1, v))
+      = some [(0, "chiral", "R")] := by decide
 
 /-! ### JSON round trip -/
 
